@@ -9,4 +9,8 @@ import Refine.Model.Matrix
 import Refine.Lemmas.ScalarReal
 import Refine.Props.C15
 import Refine.Lemmas.MatrixReal
+import Refine.Lemmas.MatrixDiag2
+import Refine.Lemmas.MatrixRot0
+import Refine.Lemmas.MatrixFun
+import Refine.Lemmas.MatrixInv
 import Refine.Props.C16
